@@ -211,3 +211,4 @@ func verifAtU32(s []uint32, i int) uint32 {
 }
 func verifWant(id string) {}
 func verifRange(name string, lo, hi int) int { return int(verifVal(name)) }
+func verifTimerResets(t *time.Timer) int { panic("engine-only") }
